@@ -4,10 +4,10 @@ import PPLV.Conv.ProofsCompleteMin2
 /-!
 # Integration stage — the preparation of `process_pending_constraints` keeps the double description pair
 
-`sortKeepsPairC_of_ncols`: `SortKeepsPairC` from the one fact `FPoly.Inv` does not record — the WIDTH of
-the saturation matrices (`NcolsFact`: `sat_c.num_columns()` = number of non-pending constraints,
-`sat_g.num_columns()` = number of non-pending generators, for the matrices flagged up to date), which
-`Bit_Matrix::transpose_assign` turns into the height of the result.
+`sortKeepsPairC`: `SortKeepsPairC`.  The WIDTH of the saturation matrices (`EnginePair.satC/satG`:
+`sat_c.num_columns()` = number of non-pending constraints, `sat_g.num_columns()` = number of non-pending
+generators, for the matrices flagged up to date) is what `Bit_Matrix::transpose_assign` turns into the
+height of the result.
 -/
 namespace PPLV.PolyFull
 open PPLV.Lin PPLV.PolyOps
@@ -35,15 +35,6 @@ theorem VCl.transpose {nnc : Bool} {gs np : List Row} {m : BitMat} (h : VCl nnc 
   refine ⟨this, ?_⟩
   show m.rows.length = gs.length
   rw [h.1.1, List.length_map]
-
-/-- the widths the flags promise -/
-def NcolsOK (x : FPoly) : Prop :=
-  (x.p.st.satC = true → x.satC.ncols = x.npC.length) ∧ (x.p.st.satG = true → x.satG.ncols = x.npG.length)
-
-/-- NOT part of `FPoly.Inv`: the saturation matrices flagged up to date have the width of the system of
-    their columns -/
-def NcolsFact : Prop := ∀ (x : FPoly) (S : Set Val), x.Inv S → x.p.st.empty = false →
-  x.p.st.canPend = true → NcolsOK x
 
 /-- `obtain_sorted_constraints_with_sat_c()` on an unsorted system of a minimal pair -/
 theorem osc_keeps (nnc : Bool) (n : Nat) (gs : List Row) (y : FPoly) (hn : y.p.nnc = nnc)
@@ -132,10 +123,10 @@ theorem osc_keeps (nnc : Bool) (n : Nat) (gs : List Row) (y : FPoly) (hn : y.p.n
   · rw [hnpE]
     have := hcore.permC hp1 y.obtainSortedConstraintsWithSatC.satC y.obtainSortedConstraintsWithSatC.satG
       (fun h' => (by cases h'))
-    exact ⟨this.sound, this.complete, this.minC, this.minG, fun _ => hVC2.1, fun _ => hVG2.1⟩
+    exact ⟨this.sound, this.complete, this.minC, this.minG, fun _ => hVC2, fun _ => hVG2⟩
 
-/-- **the preparation of `process_pending_constraints` keeps the pair**, given the widths -/
-theorem sortKeepsPairC_of_ncols (hN : NcolsFact) : SortKeepsPairC := by
+/-- **the preparation of `process_pending_constraints` keeps the pair** -/
+theorem sortKeepsPairC : SortKeepsPairC := by
   intro x S hx he hcp
   have hcan := legal_cPend hx.legal hcp
   obtain ⟨hcm, hgm, hsat⟩ := (canPend_iff _).mp hcan
@@ -149,14 +140,13 @@ theorem sortKeepsPairC_of_ncols (hN : NcolsFact) : SortKeepsPairC := by
   have hfpC := (hx.fpC he hcu).1
   have hnpG : x.npG = x.p.gs.rows := by unfold FPoly.npG; rw [hfpG, List.take_length]
   have E := hx.eng he hcan
-  obtain ⟨N1, N2⟩ := hN x S hx he hcan
-  rw [hnpG] at E N2
+  rw [hnpG] at E
   have hcore : EnginePair x.p.nnc x.p.dim x.npC x.p.gs.rows false false BitMat.clear BitMat.clear :=
     (E.dropC _).dropG _
   have hyp : (ppcStep0 x).p = x.p := by unfold ppcStep0; split <;> rfl
   have hyG : (ppcStep0 x).satG = x.satG := by unfold ppcStep0; split <;> rfl
   have hynp : (ppcStep0 x).npC = x.npC := by unfold FPoly.npC; rw [hyp]
-  have hVG : x.p.st.satG = true → VGl x.p.nnc x.p.gs.rows x.npC x.satG := fun h => ⟨E.satG h, N2 h⟩
+  have hVG : x.p.st.satG = true → VGl x.p.nnc x.p.gs.rows x.npC x.satG := fun h => E.satG h
   have hVC : VCl x.p.nnc x.p.gs.rows x.npC (ppcStep0 x).satC := by
     unfold ppcStep0
     split
@@ -169,7 +159,7 @@ theorem sortKeepsPairC_of_ncols (hN : NcolsFact) : SortKeepsPairC := by
       exact (hVG hG).transpose
     · rename_i h
       have hC : x.p.st.satC = true := by simpa [FPoly.st] using h
-      exact ⟨E.satC hC, N1 hC⟩
+      exact E.satC hC
   rw [ppcPrepared_eq]
   cases hs : x.p.cs.sorted
   · have e : (if !(ppcStep0 x).p.cs.sorted then (ppcStep0 x).obtainSortedConstraintsWithSatC
@@ -188,6 +178,6 @@ theorem sortKeepsPairC_of_ncols (hN : NcolsFact) : SortKeepsPairC := by
     rw [e]
     refine ⟨by rw [hyp]; exact hfpC, fun r => by rw [hyp], fun r => by rw [hynp], ?_⟩
     rw [hynp, hyG, hyp]
-    exact ⟨E.sound, E.complete, E.minC, E.minG, fun _ => hVC.1, E.satG⟩
+    exact ⟨E.sound, E.complete, E.minC, E.minG, fun _ => hVC, E.satG⟩
 
 end PPLV.PolyFull
